@@ -386,6 +386,8 @@ def dispatch(ctx):
     ctx.floor("R07.6", 12, "6 variants x forward/backward")
 
 
+RULES["R07.3"] += " | Softmax::backward: every result is Tensor::single(v).reshape(<the parameter's own shape>)"
+
 def run(ctx):
     for kind in ("ReLU", "LeakyReLU", "Sigmoid", "Tanh"):
         res = {}
